@@ -66,6 +66,49 @@ CHECKS.update({
     },
 })
 
+CHECKS.update({
+    'C06': {
+        'category': 'exploration',
+        'technique': 'runtime monitoring of parse_script: exception filter, position-consistency oracle on every BareScriptParserError (own logical-line joiner, caret inversion through the elision), marker accounting on accepted texts, prepend-shift metamorphic relation',
+        'text': ('Token soup, single-token mutants of marker-carrying valid programs, deleted closing keywords, closers crossing a function '
+                 'boundary, dangling continuations, nesting to depth 50 and faulty expressions embedded in eight statement contexts on '
+                 'lines of 0-400 characters are parsed; only BareScriptParserError may escape, every accepted text must account for '
+                 'every marker, open constructs must be rejected, and each error must carry a consistent line number, logical line, '
+                 'in-range column, caret position and shift behaviour.'),
+        'note': 'Trusts the oracle\'s logical-line joiner and the reference expression parser (fault offsets); columns are accepted in [start of blank run before the fault, fault]; F5/F11/F12 repaired by fix commits ef4b95b, 22e8129, ab69941.',
+        'design_ref': '5/C06',
+    },
+    'C07': {
+        'category': 'exploration',
+        'technique': 'icontract post-condition on parse_script (schema validation + per-scope label facts) observed over an exhaustive enumeration of nesting shapes, plus lint label warnings',
+        'text': ('Every nesting chain of the 26 construct variants to depth 3 (quick) / 4 (thorough) is parsed at global scope, inside a '
+                 'function and in a three-function script, plus sibling and function-after-construct placements and random deeper '
+                 'programs; the contract checks schema validity, that each generated jump targets a label defined exactly once in its '
+                 'scope, that each generated label is targeted, and lint must emit no label warning.'),
+        'note': 'Trusts schema_markdown validation and the label-fact checker in vf/contracts.py; the run-time half (no Unknown jump label) is observed by C01/C08 executions.',
+        'design_ref': '5/C07',
+    },
+    'C08': {
+        'category': 'exploration',
+        'technique': 'runtime monitoring with a mutation sanitizer (frozen model proxies), statement-counter recorder and log recorder; RefVM small-step reference as oracle; exhaustive statement lists',
+        'text': ('Every statement list of length <= 4 (quick) / <= 6 (thorough) over a 13-statement alphabet x 4 function configurations is '
+                 'executed on a frozen model and again on a plain copy and compared with RefVM on result/error, log, globals and '
+                 'statement count; random models to 40 statements and parsed structured programs add breadth.'),
+        'note': 'Trusts RefVM + RefEval; one-level functions; calls always carry args; F14 classified by the bool-coercing variant.',
+        'design_ref': '5/C08',
+    },
+    'C09': {
+        'category': 'fault_enumeration',
+        'technique': 'fault enumeration over every statement-budget cut point: WatchedOptions counter-write invariant + RefVM(L) with one global clock as oracle + prefix metamorphic relation; virtual file system for includes',
+        'text': ('Programs with loops, recursion, library callbacks (incl. data functions with and without variables) and nested includes '
+                 'are run under every limit L in 1..N+2 and 0 (N <= 80) or sampled L; each run must equal RefVM(L) in status/message, '
+                 'log, globals and (for completed runs) counter; counter writes never decrease or exceed L+1; limited runs are prefixes '
+                 'of the unlimited run; an options dict reused across runs restarts at 0.'),
+        'note': 'Trusts RefVM; typed generator keeps booleans out of arithmetic; callbacks under a variables object neither write globals nor read the variables; F8/F9 repaired by fix commits f2e2b97, 53f5995.',
+        'design_ref': '5/C09',
+    },
+})
+
 NOT_YET = {}
 
 
